@@ -50,10 +50,11 @@ GENMODE = {'dt': 'dt', 'dta': 'dt', 'tb': 'tb', 'tbd': 'tb', 'tbdt': 'tb', 'seq'
            'dup': 'dup', 'dupr': 'dup', 'dupd': 'dup'}
 HAZ_FOR = {
     'dt': ['dt_whole_and_member', 'dt_alloc_lbound', 'dt_allocated_inq', 'dt_whole_passed_on', 'dt_func_kw',
-           'dt_seq_element'],
-    'dta': ['dt_whole_and_member', 'dt_alloc_lbound', 'dt_whole_passed_on', 'dt_func_kw', 'dt_seq_element'],
+           'dt_seq_element', 'dt_func_modimport'],
+    'dta': ['dt_whole_and_member', 'dt_alloc_lbound', 'dt_whole_passed_on', 'dt_func_kw', 'dt_seq_element',
+            'dt_func_modimport'],
     'tb': ['tb_generic', 'tb_nested_function'], 'tbd': ['tb_generic'],
-    'tbdt': ['tb_nested_function', 'tb_generic'],
+    'tbdt': ['tb_nested_function', 'tb_generic', 'dt_func_modimport'],
     'seq': ['seq_span', 'seq_kw', 'seq_offset2d'],
     'shape': ['shape_lbound', 'shape_section', 'shape_two_callers', 'shape_member_dim', 'shape_star_deferred',
               'shape_star_literal_index'],
@@ -107,6 +108,8 @@ def case_flags(rng, idx, force=None):
         f['seq_actuals'] = True
     if hz == 'dt_func_kw':
         f['func_kernel'] = f['kw_calls'] = True
+    if hz == 'dt_func_modimport':
+        f['func_kernel'] = f['split_files'] = True
     if tmode == 'tbdt' and hz != 'tb_nested_function':
         # type-bound function references are not (reliably) Scheduler dependencies of the caller: the tb + dt pipeline
         # leaves their call sites unexpanded (known finding, slice tb_nested_function)
